@@ -7,41 +7,47 @@ SOURCES = ["src/allmydata/immutable/upload.py", "src/allmydata/util/hashutil.py"
            "src/allmydata/immutable/literal.py", "src/allmydata/uri.py"]
 DESIGN_REF = "DESIGN.md §2 C05"
 TECHNIQUE = ("Lean 4 theorems over an executable model of _convergence_hasher_tag (decimal rendering, netstring framing), the "
-             "chunked key-hashing loop over an abstract incremental hasher (law update(update(s,a),b) = update(s,a++b)), "
-             "Uploader.upload's literal threshold and cap assembly; differential correspondence of tags, keys, storage indexes "
-             "and caps against hashutil and the real Uploader (upload.Data, FileHandle over a short-reading file object, a "
-             "FileHandle subclass returning lists of odd-sized chunks) with the driver running an executable SHA-256d; "
-             "implementation-side monitor on an in-process grid (same data+secret+params -> same cap from every source; "
-             "different secret/k/N/segment size -> different storage index; <= 55 bytes -> LIT cap, no server call; no "
-             "convergence secret -> distinct random keys)")
-LEVEL_TEXT = ("cap_source_independent / source_cap_is_uploadCap / literal_any_source proved for every uploadable keeping the "
-              "IUploadable contract (size, read in any piece sizes, keys), chunking_irrelevant, cap_deterministic, params_separate (tag and hashed-input injectivity), lit_threshold, "
-              "random_key_is_input proved for all inputs over an abstract lawful hasher; constants (55, 16-byte keys, tag "
-              "string, accepted k/n range) pinned to the live source; the model is tied to the code by comparing tag bytes, "
-              "keys, storage indexes and caps for generated sources and parameter sets.")
+             "chunked key-hashing loop over an abstract incremental hasher (law update(update(s,a),b) = update(s,a++b)), what "
+             "Uploader.upload asks of an IUploadable (size, read in any piece sizes incl. short reads on the literal path, keys), "
+             "the literal threshold with the broker's server list as an input, and cap assembly; differential correspondence of "
+             "tags, keys, storage indexes, read(pos,len) calls and caps against hashutil and the real Uploader (Data, "
+             "FileHandle over BytesIO / rb files / unflushed w+b and temporary files / descriptor-less wrappers, FileName, "
+             "piece-list uploadables, varied CHUNKSIZE, grids with and without servers) with the driver running an executable "
+             "SHA-256d and an independent hashlib re-derivation; a fixed corpus runs first; implementation-side monitor "
+             "(same data+secret+params -> same cap from every source; different secret/k/N/segment size -> different storage "
+             "index; <= 55 bytes -> LIT cap, no server call, also with zero servers; no secret -> distinct random keys)")
+LEVEL_TEXT = ("cap_deterministic, cap_source_independent, source_cap_is_uploadCap (any uploadable keeping the IUploadable "
+              "contract), chunking_irrelevant, params_separate (tag and hashed-input injectivity), lit_threshold, "
+              "literal_any_source, lit_needs_no_servers (literal result for every server count incl. zero; CHK without "
+              "servers fails), random_key_is_input, constants_pinned - all proved for all inputs over an abstract lawful "
+              "hasher.  Not theorems: that distinct hashed inputs give distinct 16-byte keys / storage indexes (collision "
+              "resistance of truncated SHA-256d) and freshness of os.urandom - monitored only.")
 LEVEL_NOTE = ("Lean kernel + standard axioms; SHA-256d is a parameter in the theorems (hashlib's incremental-update law is an "
-              "explicit hypothesis) and an executable implementation in the driver; collision resistance is never assumed: "
-              "params_separate is about the hashed byte strings.")
-RULE = ("one case = one upload through the real Uploader (or one hashutil tag/key evaluation); sources: Data, FileHandle(BytesIO), "
-        "FileHandle over a file whose 64-KiB key-hashing reads are short, FileHandle subclass returning odd-sized chunk lists; "
-        "sizes 0..~100 KiB (thorough 300 KiB) concentrated on 54/55/56 and segment boundaries; parameter variations of secret, "
-        "k, N, max_segment_size; distinct = distinct (data seed, size, source, secret, k, n, maxSeg); non-trivial = CHK path or "
-        "a literal with non-empty data; plus the same literal-sized uploads (and 56+-byte ones, which must fail) on clients "
-        "with zero servers (never had any / all removed / broker emptied), sources Data, FileHandle, FileName, short-reading "
-        "file, chunk lists, with and without convergence secret; plus, for sizes 0,1,54..57,1000,8191..8193,20000,70000,200000, "
-        "FileHandle over BytesIO / a file opened rb (at 0, mid, end) / a just-written unflushed w+b file or TemporaryFile (one "
-        "piece, several pieces, unbuffered, repositioned) / a wrapper without fileno, and FileName: same cap as Data")
-TRUSTED = ["lean/Tahoe/Immutable/Convergence.lean is a hand transcription of hashutil._convergence_hasher_tag / "
-           "convergence_hasher, FileHandle._get_encryption_key_convergent/_random and Uploader.upload's LIT/CHK decision",
+              "explicit hypothesis with a satisfying instance) and an executable implementation in the driver; collision "
+              "resistance is never assumed: params_separate is about the hashed byte strings.")
+RULE = ("fixed corpus first (independent of VERIF_SEED; VERIF_CORPUS_ONLY=1 stops here): convergent keys for one (k,N,secret) "
+        "and changing segment sizes in one process, empty secret b\"\" re-uploads, multi-piece IUploadable.read vs Data, "
+        "literal uploads on clients without servers, unflushed / repositioned / descriptor-less file objects vs Data. Then: "
+        "one case = one upload through the real Uploader (or one hashutil tag/key evaluation); sources as in the corpus plus "
+        "short-reading key-hash reads and odd-sized chunk lists; sizes 0..~100 KiB (thorough 300 KiB) concentrated on "
+        "54/55/56, 8191..8193 and segment boundaries; parameter variations of secret, k, N, max_segment_size; zero-server "
+        "grids (never had servers / all removed / broker emptied); distinct = distinct (data seed, size, source, secret, k, "
+        "n, maxSeg); non-trivial = CHK path or a literal with non-empty data")
+TRUSTED = ["lean/Tahoe/Immutable/Convergence.lean and Uploadable.lean are hand transcriptions of hashutil."
+           "_convergence_hasher_tag / convergence_hasher, FileHandle._get_encryption_key_convergent/_random, "
+           "read_this_many_bytes, EncryptAnUploadable.read_encrypted and Uploader.upload's LIT/CHK decision (threshold first, "
+           "servers consulted only on the CHK branch)",
            "lean/Tahoe/Base/Sha256.lean (executable SHA-256 used only by the driver; compared with hashlib on every case)"]
 ASSUMPTIONS = ["hashlib objects satisfy update(a); update(b) == update(a+b) (hypothesis Hasher.Lawful)",
+               "uploadables keep the IUploadable contract (hypotheses Supplies / SuppliesShort): get_size() is the byte count, "
+               "read(length) returns the next bytes (exactly `length` unless at EOF when the encoder reads; any non-empty "
+               "prefix on the literal path)",
                "os.urandom output is an input of the model; 'fresh' means only that two uploads without a convergence secret "
                "observed different keys",
-               "file objects given to FileHandle return exactly n bytes from read(n) unless at EOF when the *encoder* reads "
-               "them (IUploadable.read contract); short reads are only legal in the key-hashing loop and in the literal "
-               "uploader, which both loop.  Observed outside the contract: a short-reading file object makes a multi-segment "
-               "upload fail with a precondition AssertionError and makes a single-segment upload return a cap whose file "
-               "cannot be downloaded (BadCiphertextHashError)"]
+               "distinct hashed inputs giving distinct truncated hashes is not assumed and not proved (monitored)",
+               "observed outside the contract: a file object that short-reads the encoder's reads makes a multi-segment "
+               "upload fail with a precondition AssertionError and a single-segment upload return a cap whose file cannot "
+               "be downloaded (BadCiphertextHashError)"]
 
 import io
 import random
